@@ -93,16 +93,45 @@ def sh(cmd, timeout=600, cwd=None, env=None, input=None, check=False):
     return rc, out, err
 
 
+# A mutated lbzip2 that hangs must not make a check run for hours: after HANG_BUDGET runs of the program under test have hit their
+# watchdog, further runs get a short watchdog (the hang has been observed and will be reported; the remaining runs are then only
+# there to find out whether anything else differs).
+HANG_BUDGET = 8
+HANG_SHORT = 10
+_hangs = [0]
+
+
+def hang_timeout(timeout):
+    return min(timeout, HANG_SHORT) if _hangs[0] >= HANG_BUDGET else timeout
+
+
+def note_hang():
+    _hangs[0] += 1
+
+
+def _is_program_under_test(cmd):
+    try:
+        return os.path.basename(cmd[0]).startswith("lbzip2") or (cmd[0] in ("prlimit", "timeout") and any(
+            os.path.basename(str(c)).startswith("lbzip2") for c in cmd[1:4]))
+    except Exception:
+        return False
+
+
 def shb(cmd, timeout=600, cwd=None, env=None, input=None):
     """Like sh but returns bytes stdout/stderr."""
     e = dict(os.environ)
     if env:
         e.update(env)
+    put = isinstance(cmd, (list, tuple)) and _is_program_under_test(cmd)
+    if put:
+        timeout = hang_timeout(timeout)
     try:
         p = subprocess.run(cmd, cwd=cwd, env=e, input=input, timeout=timeout,
                            stdout=subprocess.PIPE, stderr=subprocess.PIPE)
         return p.returncode, p.stdout, p.stderr
     except subprocess.TimeoutExpired as ex:
+        if put:
+            note_hang()
         return 124, ex.stdout or b"", (ex.stderr or b"") + b"[timeout]"
 
 
